@@ -75,6 +75,8 @@ Stmt(t) ==
                         b |-> <<[k |-> "if", e |-> I("a"), t |-> <<Dat("db", N(17))>>, hasf |-> TRUE, f |-> <<Dat("db", N(34))>>], Dat("dl", I("p"))>>]
       [] t = "AP20b" -> [k |-> "apply", n |-> "m2", as |-> <<N(0), I("b")>>]
       [] t = "AP21b" -> [k |-> "apply", n |-> "m2", as |-> <<N(1), I("b")>>]
+      \* a code-block argument that itself opens a scope (a block inside), spliced in a loop of the macro body
+      [] t = "AP1kb" -> [k |-> "apply", n |-> "m1", as |-> <<[k |-> "code", b |-> <<[k |-> "block", b |-> <<Dat("db", N(9))>>], Dat("db", N(8))>>]>>]
       [] t = "SPa" -> [k |-> "splice", p |-> "a"]
       [] t = "AP2na" -> [k |-> "apply", n |-> "m2", as |-> <<N(1), I("a")>>]      \* second argument named like the first parameter
       [] t = "AP2ab" -> [k |-> "apply", n |-> "m2", as |-> <<I("b"), N(2)>>]
@@ -127,6 +129,9 @@ AlphaSeq ==
       [] Family = "deferall" -> <<"Mifa", "AP20b", "AP21b", "Lb", "DB", "{", "}">>
       \* a label of an enclosing block, defined AFTER an inner block that uses the name, shadows the global one
       [] Family = "fwdshadow" -> <<"Lc", "LDc", "BRc", "{", "}">>
+      \* a named scope exports what it DEFINES, not what its body merely looks up
+      [] Family = "exportleak" -> <<"C10", "N{", "}", "LDc", "DLnc", "Ec5", "DLc">>
+      [] Family = "spliceloop" -> <<"M1{", "FOR02{", "}", "SPp", "AP1kb", "AP1k", "DBi">>
       [] Family = "tiny"   -> <<"La", "DB", "DLa", "{", "}", "S3">>
 Alphabet == Range(AlphaSeq)
 TokIndex(t) == CHOOSE j \in 1..Len(AlphaSeq) : AlphaSeq[j] = t
